@@ -63,7 +63,7 @@ def _pick(seed, *key):
 def matrix(tier):
     seed = int(os.environ.get("VERIF_SEED", "1") or "1")
     if tier == "thorough":
-        for fmt, nc, pre, tmp, size in itertools.product(FORMATS, NAMES, (True, False), ("same", "other"), (1, 40)):
+        for fmt, nc, pre, tmp, size in itertools.product(FORMATS, NAMES, (True, False), ("same", "other"), (1, 40, -3000)):
             yield {"fmt": fmt, "name": nc, "pre": pre, "tmp": tmp, "size": size}
     else:
         for fmt, nc in itertools.product(FORMATS, NAMES):
@@ -73,6 +73,8 @@ def matrix(tier):
         for fmt in FORMATS:
             yield {"fmt": fmt, "name": "plain", "pre": True, "tmp": "other", "size": 40}
             yield {"fmt": fmt, "name": "hash", "pre": False, "tmp": "same", "size": 1}
+            # dominated by multi-byte text (byte length != character length), larger than one I/O block
+            yield {"fmt": fmt, "name": "plain", "pre": bool(_pick(seed, fmt) & 1), "tmp": "same", "size": -3000}
 
 
 def _it(b, **kw):
@@ -87,6 +89,10 @@ LINE = re.compile(r"^\d+\s+(\w+)\((.*)$")
 def _expected(fmt, size):
     childmod.pin_bnodes()
     d = childmod.make_doc(size)
+    if fmt in ("json", "provn"):
+        # through the text destination (the returned string), encoded here: a different code path from the binary
+        # temporary file the path destination is written through
+        return d.serialize(format=fmt).encode("utf-8")
     buf = io.BytesIO()
     d.serialize(buf, format=fmt)
     return buf.getvalue()
